@@ -376,6 +376,7 @@ func (a *cbpAnchors) more() *cbpMore {
 		return m
 	}
 	st := core.FlatStruct(a.shard)
+	procIsPtr := false
 	for i := 0; i < st.NumFields(); i++ {
 		f := st.Field(i)
 		if el := chanElem(f.Type()); el != nil {
@@ -388,7 +389,19 @@ func (a *cbpAnchors) more() *cbpMore {
 			}
 		}
 		if n := core.NamedOf(f.Type()); n != nil && n.Obj().Pkg() != nil && n.Obj().Pkg().Path() == core.CBPPath {
-			if _, isStruct := n.Underlying().(*types.Struct); isStruct {
+			if ns, isStruct := n.Underlying().(*types.Struct); isStruct {
+				// the back-reference to the processor: a pointer field, and the larger struct when there are several
+				// (an embedded helper struct such as a timer holder is not the processor)
+				_, isPtr := f.Type().(*types.Pointer)
+				better := m.procType == nil
+				if !better {
+					cur := m.procType.Underlying().(*types.Struct)
+					better = (isPtr && !procIsPtr) || (isPtr == procIsPtr && ns.NumFields() > cur.NumFields())
+				}
+				if !better {
+					continue
+				}
+				procIsPtr = isPtr
 				m.procType = n
 			}
 		}
